@@ -2,11 +2,11 @@
     lists are evaluated by RowCache.RowsByCondition under several index
     configurations; every answer must equal the model's (with its faithful
     pre-filter) and the declarative filter. *)
-From LOV Require Export Corr.Common Corr.Rows Cache.Select.
+From LOV Require Export Corr.Common Corr.Rows Cache.Select Cli.CondApi.
 
 
 Record cfgobs := mkCfg { g_specs : list ispec; g_res : list (option (list sym)) }.
-Record case := mk { c_rows : list (sym * lrow); c_conds : list (list lcond); c_cfgs : list cfgobs }.
+Record qcase := mk { c_rows : list (sym * lrow); c_conds : list (list lcond); c_cfgs : list cfgobs }.
 
 Fixpoint build (T : table) (specs : list ispec) (c : rc) (rows : list (sym * lrow)) : rc :=
   match rows with
@@ -36,9 +36,96 @@ Definition check_cfg (T : table) (rows : list (sym * lrow)) (conds : list (list 
   if negb (Nat.eqb (length conds) (length (g_res g))) then 4
   else first_nonzero (zip_with (res_ok T (g_specs g) c) conds (g_res g)).
 
-Definition check (T : table) (c : case) : nat :=
+Definition check_query (T : table) (c : qcase) : nat :=
   let conds := map (map mk_cond) (c_conds c) in
   if negb (forallb (conds_valid T) conds) then 5
   else first_nonzero (map (check_cfg T (c_rows c) conds) (c_cfgs c)).
+
+(** * the conditional API: one client (real server, synchronised cache), one
+    conditional, its List(), the operations one API call generates, and the
+    table after they were executed *)
+Inductive lconditional :=
+| LModels (ms : list (option sym * lrow))
+| LExplicit (any : list (list lcond))
+| LPredicate (cs : list lcond).
+
+Inductive lkind := LDelete | LUpdate (explicit : bool) (w : lrow) | LMutate (ms : list lmut).
+
+Record acase := mkApi {
+  a_specs : list ispec;
+  a_indexes : list (list sym);                 (* the schema indexes of the table *)
+  a_rows : list (sym * lrow);
+  a_cond : lconditional;
+  a_kind : lkind;
+  a_list : option (list sym);                  (* List(): None = error *)
+  a_wheres : option (list (list lcond));       (* the where of each generated operation, in the order generated *)
+  a_after : option (list (sym * lrow)) }.      (* the table after Transact(ops): None = not committed *)
+
+Definition mk_conditional (T : table) (l : lconditional) : conditional :=
+  match l with
+  | LModels ms => CModels (map (fun m => (fst m, fill_row T (mkrow (snd m)))) ms)
+  | LExplicit any => CExplicit (map (map mk_cond) any)
+  | LPredicate cs => CPredicate (map mk_cond cs)
+  end.
+Definition mk_kind (k : lkind) : akind :=
+  match k with LDelete => ADelete | LUpdate e w => AUpdate e (mkrow w) | LMutate ms => AMutate (map mk_mut ms) end.
+
+Definition conds_eqb (a b : list cond) : bool := bool_decide (a = b).
+Fixpoint remove_first (x : list cond) (l : list (list cond)) : option (list (list cond)) :=
+  match l with
+  | [] => None
+  | y :: l' => if conds_eqb x y then Some l' else option_map (cons y) (remove_first x l')
+  end.
+Fixpoint is_perm (a b : list (list cond)) : bool :=
+  match a with
+  | [] => match b with [] => true | _ => false end
+  | x :: a' => match remove_first x b with Some b' => is_perm a' b' | None => false end
+  end.
+
+Definition op_where (o : op) : list cond :=
+  match o with OUpdate _ wh _ | OMutate _ wh _ | ODelete _ wh => wh | _ => [] end.
+Definition set_where (o : op) (wh : list cond) : op :=
+  match o with
+  | OUpdate t _ w => OUpdate t wh w | OMutate t _ ms => OMutate t wh ms | ODelete t _ => ODelete t wh
+  | _ => o
+  end.
+
+Definition check_api (T0 : table) (a : acase) : nat :=
+  let T := mkTable (t_name T0) (t_cols T0) (a_indexes a) (t_root T0) in
+  let S := mkSchema [T] in
+  let specs := a_specs a in
+  let c := build T specs (rc_empty specs) (a_rows a) in
+  let cd := mk_conditional T (a_cond a) in
+  let ms := matches T specs c cd in
+  match a_list a with
+  | None => 10
+  | Some l =>
+    if negb (bool_decide (ms = list_to_set l)) then 11
+    else
+      match api_ops T specs c cd (mk_kind (a_kind a)), a_wheres a with
+      | None, None => 0
+      | None, Some _ => 12
+      | Some _, None => 13
+      | Some ops, Some whs =>
+        let whs' := map (map mk_cond) whs in
+        if negb (is_perm (map op_where ops) whs') then 14
+        else
+          (* execute in the order the implementation generated *)
+          let ops' := match ops with o :: _ => map (set_where o) whs' | [] => [] end in
+          let d : dbstate := {[ t_name T := rc_rows c ]} in
+          match transact S d ops', a_after a with
+          | (_, None), None => 0
+          | (_, Some d'), Some rows =>
+              if bool_decide (get_tbl d' (t_name T) = list_to_map (map (fun ur => (fst ur, mkrow (snd ur))) rows)) then 0 else 15
+          | (_, None), Some _ => 16
+          | (_, Some _), None => 17
+          end
+      end
+  end.
+
+Inductive case := CQuery (q : qcase) | CApi (a : acase).
+
+Definition check (T : table) (c : case) : nat :=
+  match c with CQuery q => check_query T q | CApi a => check_api T a end.
 
 Definition run (T : table) := run_cases (check T).
